@@ -18,6 +18,7 @@ repaired in /repo commit b6cf5c9; they are now proved at full strength.)
 import Osmium.Lemmas.Escape
 import Osmium.Generated.Src
 import Osmium.Lemmas.SrcTieUtf8
+import Osmium.Lemmas.SrcTieEscStr
 
 namespace Osmium.C14
 
@@ -238,6 +239,83 @@ theorem src_tie_utf8_sequence_length (n : Nat) (h : n < 256) :
 -- the translated decoder runs: "€" (e2 82 ac) is U+20AC, three bytes; a lone e2 is truncated
 example : Src.StringUtil.next_utf8_codepoint ([0xe2, 0x82, 0xac] ++ 0 :: []) 0 3 = .normal 3 0x20ac := by decide +kernel
 example : Src.StringUtil.next_utf8_codepoint ([0xe2] ++ 0 :: []) 0 1 = .thrown "std::out_of_range" 0 := by decide +kernel
+
+/-! ### the OPL un-escaping path (functions that BUILD A STRING: the output string is a byte list in the state) -/
+
+/-- `io::detail::append_codepoint_as_utf8(cp, std::back_inserter(result))` (io/detail/string_util.hpp; the instantiation
+    `opl_parse_escaped` uses) appends exactly the model's `Utf8.encode cp` for EVERY `uint32_t` value, without undefined
+    behaviour. -/
+theorem src_tie_append_codepoint_as_utf8 (cp : Nat) (out : List UInt8) :
+    Src.StringUtil.append_codepoint_as_utf8 (cp : Int) out = .normal (out ++ Utf8.encode cp) () ∧
+    Src.StringUtil.append_codepoint_as_utf8_defined (cp : Int) out = true :=
+  SrcTie.Esc.src_tie_append_codepoint_as_utf8 cp out
+
+/-- `io::detail::opl_parse_escaped(&s, result)` (io/detail/opl_parser_functions.hpp) for EVERY NUL-terminated byte
+    string, start position and contents of `result` (the array is `s ++ 0 :: t`, `*data` the index `i`): it behaves as
+    the model's `Opl.parseEscaped 8 0` on the suffix — at most eight hex digits, then '%': the cursor cell ends up behind
+    the '%' and `result` has the UTF-8 encoding of the value appended, a literal '%' when the value is 0; otherwise
+    (`eol`, `not a hex char`, `hex escape too long`) `opl_error` is thrown with the cell and the string untouched — and
+    the execution has no undefined behaviour (no read behind the NUL).  Any fuel ≥ 9 suffices. -/
+theorem src_tie_opl_parse_escaped (s t : List UInt8) (i : Nat) (hi : i ≤ s.length) (result : List UInt8) (fuel : Nat)
+    (hf : 9 ≤ fuel) :
+    (match Opl.parseEscaped 8 0 (s.drop i) with
+     | .ok (p, rest) => ∃ j, i < j ∧ j ≤ s.length ∧ rest = s.drop j ∧
+         Src.OplParserFunctions.opl_parse_escaped fuel (s ++ 0 :: t) i result = .normal ((j : Int), result ++ p) ()
+     | .error _ =>
+         Src.OplParserFunctions.opl_parse_escaped fuel (s ++ 0 :: t) i result = .thrown "osmium::opl_error" ((i : Int), result)) ∧
+    Src.OplParserFunctions.opl_parse_escaped_defined fuel (s ++ 0 :: t) i result = true := by
+  obtain ⟨h1, h2⟩ := SrcTie.Esc.src_tie_opl_parse_escaped_main s t i hi result fuel hf
+  refine ⟨?_, h2⟩
+  cases hm : Opl.parseEscaped 8 0 (s.drop i) with
+  | ok q => obtain ⟨p, rest⟩ := q; rw [hm] at h1; exact h1
+  | error e => rw [hm] at h1; exact h1
+
+/-- `io::detail::opl_parse_string(&s, result)` for EVERY NUL-terminated byte string, start position and contents of
+    `result`: the model's `Opl.parseString` on the suffix — the decoded bytes are appended to `result`, the cursor cell
+    ends up at the stop character (NUL, space, tab, ',', '='); when an escape is malformed `opl_error` leaves the function
+    with the CALLER's cell untouched (the local cursor was handed to `opl_parse_escaped`) — and there is no undefined
+    behaviour.  Fuel: the number of characters left + 10. -/
+theorem src_tie_opl_parse_string (s t : List UInt8) (i : Nat) (hi : i ≤ s.length) (result : List UInt8) (fuel : Nat)
+    (hf : s.length - i + 10 ≤ fuel) :
+    (match Opl.parseString (s.drop i) with
+     | .ok (r, rest) => ∃ j, i ≤ j ∧ j ≤ s.length ∧ rest = s.drop j ∧
+         Src.OplParserFunctions.opl_parse_string fuel (s ++ 0 :: t) i result = .normal ((j : Int), result ++ r) ()
+     | .error _ => ∃ r',
+         Src.OplParserFunctions.opl_parse_string fuel (s ++ 0 :: t) i result = .thrown "osmium::opl_error" ((i : Int), result ++ r')) ∧
+    Src.OplParserFunctions.opl_parse_string_defined fuel (s ++ 0 :: t) i result = true := by
+  obtain ⟨h1, h2⟩ := SrcTie.Esc.src_tie_opl_parse_string_main s t i hi result fuel hf
+  refine ⟨?_, h2⟩
+  cases hm : Opl.parseString (s.drop i) with
+  | ok q => obtain ⟨r, rest⟩ := q; rw [hm] at h1; exact h1
+  | error e => rw [hm] at h1; exact h1
+
+/-- The round trip of `opl_roundtrip` with the TRANSLATED parser: on the escaped form of any string of scalar values, in
+    front of any delimiter, the translated `opl_parse_string` appends exactly the original bytes and stops exactly at the
+    delimiter. -/
+theorem src_tie_opl_roundtrip (cs : List Nat) (hs : ScalarStr cs) (d : List UInt8) (hd : Opl.AtStop d) (t result : List UInt8)
+    (fuel : Nat) :
+    ∃ e, Opl.escape (encodeStr cs) = .ok e ∧ (e.length + d.length + 10 ≤ fuel →
+      Src.OplParserFunctions.opl_parse_string fuel ((e ++ d) ++ 0 :: t) 0 result =
+        .normal (((e.length : Nat) : Int), result ++ encodeStr cs) ()) := by
+  obtain ⟨e, he, hp⟩ := opl_roundtrip cs hs d hd
+  refine ⟨e, he, fun hf => ?_⟩
+  have h := (src_tie_opl_parse_string (e ++ d) t 0 (Nat.zero_le _) result fuel (by rw [List.length_append]; omega)).1
+  rw [List.drop_zero, hp] at h
+  obtain ⟨j, _, hj, hr, ho⟩ := h
+  have hl := congrArg List.length hr
+  rw [List.length_drop, List.length_append] at hl
+  rw [List.length_append] at hj
+  have : j = e.length := by omega
+  subst this
+  exact ho
+
+-- the translated decoder runs: `%0%` is a literal '%' (NOT a NUL byte), `%20ac%` is "€", nine hex digits are too long
+example : Src.OplParserFunctions.opl_parse_escaped 9 ([0x30, 0x25] ++ 0 :: []) 0 [0x41] = .normal (2, [0x41, 0x25]) () := by decide +kernel
+example : Src.OplParserFunctions.opl_parse_escaped 9 ([0x32, 0x30, 0x61, 0x63, 0x25] ++ 0 :: []) 0 [] = .normal (5, [0xe2, 0x82, 0xac]) () := by decide +kernel
+example : Src.OplParserFunctions.opl_parse_escaped 9 ([0x31, 0x31, 0x31, 0x31, 0x31, 0x31, 0x31, 0x31, 0x31, 0x25] ++ 0 :: []) 0 [] =
+    .thrown "osmium::opl_error" (0, []) := by decide +kernel
+example : Src.OplParserFunctions.opl_parse_string 20 ([0x61, 0x25, 0x32, 0x30, 0x25, 0x62, 0x3d, 0x63] ++ 0 :: []) 0 [] =
+    .normal (6, [0x61, 0x20, 0x62]) () := by decide +kernel
 
 end SrcTies
 
